@@ -47,8 +47,9 @@ def dump(crate, features=(), default_features=True, guard=True):
     if os.path.exists(out) and os.path.getsize(out) > 0:
         return out, h, 0.0, True
     # remove stale dumps of the same tag
+    import re
     for f in os.listdir(BUILD):
-        if f.startswith('mir-%s-' % tag) and f.endswith('.mir'):
+        if re.fullmatch(r'mir-%s-[0-9a-f]{16}\.mir' % re.escape(tag), f):
             os.remove(os.path.join(BUILD, f))
     env = dict(os.environ)
     env['CARGO_NET_OFFLINE'] = 'true'
